@@ -354,7 +354,7 @@ func TestC24(t *testing.T) {
 		"every certificate window around [timestamp, timestamp+lifetime]; all hop-expiry vectors over {0,63,255} of 2- and 3-entry " +
 		"segments x entry position x certificate windows relative to that entry's own / the segment's shortest / longest lifetime " +
 		"(and peer hop fields with another expiry); chains in the DB or only at a remote server that " +
-		"answers with right/wrong chains; cached verifier histories of 2 verifications. One case = one VerifySegment verdict " +
+		"answers with right/wrong chains; cached verifier histories of 2 verifications (same key with other validity; warm-ups of several ASes followed by every signer-identity forgery). One case = one VerifySegment verdict " +
 		"on a distinct (segment bytes, trust material, history); non-trivial = every case"
 	var budget atomic.Bool
 	done := make(chan struct{})
@@ -623,6 +623,12 @@ func c24Run(r *mc.Run, budget *atomic.Bool) {
 	}
 
 	// ---------- Part B: signer identity ----------
+	type identCase struct {
+		what string
+		ps   *cppb.PathSegment
+		want string
+	}
+	var identCases []identCase // replayed in part F behind warm caches
 	for n := 1; n <= mc.Pick(3, 5); n++ {
 		for pos := 0; pos < n; pos++ {
 			if budget.Load() {
@@ -664,6 +670,9 @@ func c24Run(r *mc.Run, budget *atomic.Bool) {
 					class = "identity-honest"
 				}
 				expect(class, id.want, "wrong-signer-identity-accepted", fmt.Sprintf("n=%d entry %d: %s", n, pos, id.what), ver, ps, false)
+				if n <= 2 {
+					identCases = append(identCases, identCase{fmt.Sprintf("n=%d entry %d: %s", n, pos, id.what), ps, id.want})
+				}
 			}
 			// signature input variants an implementation could wrongly accept
 			for _, variant := range []string{"earlier signatures not covered", "segment info not covered"} {
@@ -1002,6 +1011,68 @@ func c24Run(r *mc.Run, budget *atomic.Bool) {
 				st.db.Close()
 			}
 		}
+	}
+	// ---------- Part F: cached verifier, histories ACROSS ASes and claimed identities ----------
+	// One verifier with the chain cache; first a warm-up that makes it look up (and cache) the chains of honest ASes,
+	// then every signer-identity case of part B (n <= 2). The second verdict must be the history-free one: chains cached
+	// for one ISD-AS / subject key id must never serve a query for another identity.
+	{
+		var plains []*cryptopb.SignedMessage
+		for _, c := range append(append([]*c24Cred{}, creds[:3]...), &twin) {
+			e := c24Honest(c, 0, 0, 0, 0, 0)
+			e.omitInfo = true
+			plains = append(plains, c24RefBuild(nil, []c24Entry{e}, now).AsEntries[0].Signed)
+		}
+		warmups := []struct {
+			what string
+			run  func(v compat.Verifier) error
+		}{
+			{"honest 3-entry segment of ASes 0,1,2", func(v compat.Verifier) error {
+				got, err := c24Check(v, c24RefBuild(c24Info(ts, 0x6000), chainOf(3, 63, -1), now), false)
+				if got != "accept" {
+					return fmt.Errorf("warm-up segment: %s %v", got, err)
+				}
+				return nil
+			}},
+			{"ordinary signed messages of ASes 0,1,2 and of the same AS number in the other ISD", func(v compat.Verifier) error {
+				for _, m := range plains {
+					if _, err := v.Verifier.Verify(context.Background(), m); err != nil {
+						return err
+					}
+				}
+				return nil
+			}},
+			{"real-signed 2-entry segment, then the messages", func(v compat.Verifier) error {
+				ps, err := c24RealBuild(ts, 0x6001, chainOf(2, 63, -1))
+				if err != nil {
+					return err
+				}
+				if got, err := c24Check(v, ps, false); got != "accept" {
+					return fmt.Errorf("warm-up segment: %s %v", got, err)
+				}
+				for _, m := range plains {
+					if _, err := v.Verifier.Verify(context.Background(), m); err != nil {
+						return err
+					}
+				}
+				return nil
+			}},
+		}
+		for _, w := range warmups {
+			for _, ic := range identCases {
+				if budget.Load() {
+					return
+				}
+				v := store.verifier(cache.New(time.Minute, 0))
+				if err := w.run(v); err != nil {
+					r.Violation("cached-verifier-warm-up-rejected", map[string]any{"warm-up": w.what, "error": err.Error()})
+					continue
+				}
+				expect("cached-cross-identity", ic.want, "cached-verifier-serves-chain-for-other-identity",
+					fmt.Sprintf("cached verifier, after [%s]: %s", w.what, ic.what), v, ic.ps, false)
+			}
+		}
+		r.Extra["cached_cross_identity_histories"] = len(warmups) * len(identCases)
 	}
 	r.Extra["max_entries"] = maxN
 	r.Extra["byte_masks"] = fmt.Sprintf("%x", masks)
